@@ -1,9 +1,7 @@
 // ---- assumed I/O environment (A): std::io traits through uninterpreted ghost views; BLAKE3 as an opaque function ----
 #[verifier::external_type_specification]
-#[verifier::external_body]
-pub struct ExIoError(std::io::Error);
-#[verifier::external_type_specification]
 pub struct ExSeekFrom(std::io::SeekFrom);
+#[verifier::external_type_specification] #[verifier::external_body] #[verifier::reject_recursive_types(T)] pub struct ExTake<T>(std::io::Take<T>);
 
 // H = BLAKE3 as a mathematical function Seq<u8> -> Seq<u8>; nothing else is assumed about it.
 pub uninterp spec fn H(s: Seq<u8>) -> Seq<u8>;
@@ -66,6 +64,8 @@ pub trait ExRead {
                 &&& final(buf)@ == r_content(&*old(self)).subrange(r_pos(&*old(self)) as int, (r_pos(&*old(self)) + old(buf)@.len()) as int)
                 &&& r_pos(&*final(self)) == r_pos(&*old(self)) + old(buf)@.len()
             };
+    fn take(self, limit: u64) -> (r: std::io::Take<Self>) where Self: Sized
+        ensures stream_of(&r) == stream_of(&self).take(if limit as int <= stream_of(&self).len() { limit as int } else { stream_of(&self).len() as int });
     fn read_to_end(&mut self, buf: &mut Vec<u8>) -> (res: std::result::Result<usize, std::io::Error>)
         ensures res is Ok ==> final(buf)@ == old(buf)@ + stream_of(&*old(self)), io_ok() ==> res is Ok;
 }
@@ -84,6 +84,8 @@ pub trait ExWrite {
     fn write_all(&mut self, buf: &[u8]) -> (res: std::result::Result<(), std::io::Error>)
         ensures
             res is Ok ==> w_written(&*final(self)) == w_written(&*old(self)) + buf@, io_ok() ==> res is Ok;
+    fn flush(&mut self) -> (res: std::result::Result<(), std::io::Error>)
+        ensures w_written(&*final(self)) == w_written(&*old(self));
 }
 // R7: a by-value `mut output: W` cannot be named in `ensures`; writes go through this shim, whose body is
 // that very call, and which logs the bytes in a ghost sink
@@ -96,4 +98,3 @@ pub fn vio_write_all<W: Write>(w: &mut W, buf: &[u8], Tracked(sink): Tracked<&mu
 #[verifier::external_body]
 pub proof fn axiom_vec_len(v: &Vec<u8>) ensures v@.len() <= 0x7fff_ffff_ffff_ffff { }
 pub assume_specification<T: Clone> [<[T]>::to_vec] (s: &[T]) -> (r: Vec<T>) ensures r@ == s@;
-#[verifier::external_body] pub fn vfmt() -> String { String::new() }    // R3: diagnostics text is opaque
